@@ -344,4 +344,62 @@ mod k {
         if let Ok(e) = r { core::mem::forget(e); }
         kani::cover!(len == 64);
     }
+
+    // ------------------------------------------------------------------ C16 (feature serde)
+    #[cfg(feature = "serde")]
+    mod c16 {
+        use super::*;
+        use crate::verif_hooks::serde_model::*;
+        fn first32(d: &[u8; CAP]) -> [u8; 32] { let mut o = [0u8; 32]; let mut i = 0; while i < 32 { o[i] = d[i]; i += 1; } o }
+        fn is_bytes32(b: &Buf, want: &[u8; 32]) -> bool {
+            if !(b.shape == SHAPE_BYTES && b.declared == 32 && b.n == 32) { return false; }
+            let mut i = 0; while i < 32 { if b.b[i] != want[i] { return false; } i += 1; }
+            true
+        }
+        fn input() -> ([u8; CAP], usize, bool) {
+            let data: [u8; CAP] = kani::any(); let len: usize = kani::any(); kani::assume(len <= 40);
+            (data, len, kani::any())
+        }
+        // SigningKey::from_bytes hashes the seed (SHA-512) and multiplies the basepoint: replaced by a model that keeps
+        // the seed and derives a tag-only verifying key
+        fn m_sk_from_bytes(b: &[u8; 32]) -> SigningKey {
+            SigningKey { secret_key: *b, verifying_key: VerifyingKey { compressed: CompressedEdwardsY(*b), point: vh::point_from_tags(w(b), 3) } }
+        }
+        #[kani::proof] #[kani::unwind(42)]
+        fn c16_signing_key_serialize_is_secret_bytes() {
+            let b: [u8; 32] = kani::any();
+            let sk = m_sk_from_bytes(&b);
+            let out = ser(&sk);
+            assert!(out.is_some()); assert!(is_bytes32(&out.unwrap(), &b));
+            core::mem::forget(sk);
+        }
+        #[kani::proof] #[kani::unwind(42)]
+        #[kani::stub(crate::signing::SigningKey::from_bytes, m_sk_from_bytes)]
+        fn c16_signing_key_deserialize_validates() {
+            let (data, len, compact) = input();
+            let got: Option<SigningKey> = de(&data, len, compact);
+            assert!(got.is_some() == (len == 32));
+            if let Some(k) = got { assert!(k.secret_key == first32(&data)); core::mem::forget(k); }
+            kani::cover!(len == 32); kani::cover!((len == 33) & compact); kani::cover!((len == 33) & !compact); kani::cover!(len == 31);
+        }
+        #[kani::proof] #[kani::unwind(42)]
+        #[kani::stub(EdwardsPoint::compress, m_compress)]
+        fn c16_verifying_key_serialize_is_stored_bytes() {
+            let b: [u8; 32] = kani::any();
+            let vk = VerifyingKey { compressed: CompressedEdwardsY(b), point: vh::point_from_tags(kani::any(), kani::any()) };
+            let out = ser(&vk);
+            assert!(out.is_some()); assert!(is_bytes32(&out.unwrap(), &b));
+        }
+        #[kani::proof] #[kani::unwind(42)]
+        #[kani::stub(CompressedEdwardsY::decompress, m_decompress)]
+        fn c16_verifying_key_deserialize_validates() {
+            let (data, len, compact) = input();
+            let got: Option<VerifyingKey> = de(&data, len, compact);
+            let b = first32(&data);
+            let nat = m_decompress(&CompressedEdwardsY(b));
+            assert!(got.is_some() == (len == 32 && nat.is_some()));
+            if let (Some(k), Some(q)) = (got, nat) { assert!(k.compressed.0 == b); assert!(vh::point_tags(&k.point) == vh::point_tags(&q)); }
+            kani::cover!(got.is_some()); kani::cover!((len == 32) & got.is_none()); kani::cover!(len == 33);
+        }
+    }
 }
